@@ -56,9 +56,8 @@ def cases(tier, rng):
             for tail in tails:
                 for pat in (('rand',) if tier == 'quick' else ('rand', 'zero', 'ones', 'x80')):
                     yield {'k': 'cuts', 'h': name, 'cuts': list(cuts), 'tail': tail, 'pat': pat}
-        if tier == 'thorough':
-            for j in range(30):
-                yield {'k': 'long', 'h': name, 'j': j}
+        for j in range(30 if tier == 'thorough' else 2):
+            yield {'k': 'long', 'h': name, 'j': j}
     for j in range(len(HASHES) * (6 if tier == 'quick' else 40)):
         yield {'k': 'interleaved', 'h': HASHES[j % len(HASHES)], 'other': HASHES[(j * 7 + j // len(HASHES)) % len(HASHES)], 'j': j}
     for name in HASHES:
